@@ -873,7 +873,13 @@ impl Formatter {
             }
             Expr::Closure(params, body) => {
                 self.writer.write("(");
-                self.format_params(params);
+                // closure parameters have no annotation in the surface syntax (the parser stores `_`)
+                for (i, param) in params.iter().enumerate() {
+                    if i > 0 {
+                        self.writer.write(", ");
+                    }
+                    self.writer.write(&param.node.name);
+                }
                 self.writer.write(") => ");
                 self.format_expr(&body.node);
             }
